@@ -4,7 +4,8 @@
 From Coq Require Import String List NArith ZArith Bool Lia ZifyN ZifyNat ZifyBool.
 From J5V.lib Require Import Outcome Json JsonPrint Base64 Civil Decimal.
 From J5V.model Require Import CodecTypes CodecEnc CodecEncSpec CodecEncDec.
-From J5V.proofs Require Import CodecEncProofs CodecEncDecProofs.
+From J5V.model Require CodecDecScalar CodecDec CodecDecTree.
+From J5V.proofs Require Import CodecEncProofs CodecEncDecProofs CodecEncTotal CodecEncDecTie.
 Import ListNotations.
 Local Open Scope N_scope.
 
@@ -21,29 +22,97 @@ Theorem C01_codec_roundtrip :
     float_text_ok fmt_float -> float_roundtrip fmt_float parse_float -> time_parse_extends parse_time ->
     inner_ok any_inner ->
     forall root m txt,
-      rep_root env root m -> encode fmt_float any_inner env root m = Ok txt ->
+      rep_root any_inner env root m -> encode fmt_float any_inner env root m = Ok txt ->
       exists J, strict_parse txt = Some J /\
         (N.of_nat (jnest J) <= max_nesting ->
-         exists m', decode_tree parse_float parse_time env root J = Ok m' /\ equiv_root any_inner env root m m').
-Proof. exact codec_roundtrip. Qed.
+         exists m', decode_tree (dec_scalar parse_float parse_time) print false env root J = Ok m' /\ equiv_root any_inner print env root m m').
+Proof.
+  intros fmt_float any_inner parse_float parse_time env Hflat Hnames Hfok Hfrt Htime Hinner.
+  exact (codec_roundtrip fmt_float any_inner (dec_scalar parse_float parse_time) print print_nonempty false env Hflat Hnames
+           (scalar_rt_own fmt_float parse_float parse_time Hfok Hfrt Htime) Hinner).
+Qed.
 Print Assumptions C01_codec_roundtrip.
+
+(* the premises about strconv and time.Parse are jointly satisfiable: printing the bit pattern in
+   decimal (a JSON number) and reading it back, and the fast path itself as the time parser *)
+Theorem C01_premises_satisfiable :
+  float_text_ok inst_fmt /\ float_roundtrip inst_fmt inst_parse_float /\ time_parse_extends parse_rfc3339.
+Proof. exact premises_satisfiable. Qed.
+Print Assumptions C01_premises_satisfiable.
 
 (* the static conditions on a property list are decidable, and the decider is sound *)
 Theorem C01_props_ok_decided : forall env ps, props_ok_b env ps = true -> props_ok env ps.
 Proof. exact props_ok_b_sound. Qed.
 Print Assumptions C01_props_ok_decided.
 
-(* What is not covered (kept visible): encoding of a representable message succeeds (only the
-   conditional form above is proved; the direct oracle checks success on every generated message),
-   and protobuf Any values, which decode only with the WithProtoToAny option. *)
-Definition C01_full_statement : Prop :=
+(* The full statement: encoding a representable message SUCCEEDS (no error, no panic, the model's
+   fuel suffices), the text is one JSON document, and decoding it into a fresh message gives an
+   equivalent message.  The decoder refuses documents nested deeper than 10000 levels (its documented
+   bound, the same as protobuf's own recursion limit), hence the premise on the tree.
+   Not covered: protobuf Any values (they decode only with the WithProtoToAny option). *)
+Theorem C01_full_statement :
   forall fmt_float any_inner parse_float parse_time env,
     oneofs_flat env -> oneof_names_ok env ->
     float_text_ok fmt_float -> float_roundtrip fmt_float parse_float -> time_parse_extends parse_time ->
     inner_ok any_inner ->
-    forall root m, rep_root env root m ->
-      exists txt J m', encode fmt_float any_inner env root m = Ok txt /\ strict_parse txt = Some J /\
-                       decode_tree parse_float parse_time env root J = Ok m' /\ equiv_root any_inner env root m m'.
+    forall root m, rep_root any_inner env root m ->
+      exists txt J, encode fmt_float any_inner env root m = Ok txt /\ strict_parse txt = Some J /\
+        (N.of_nat (jnest J) <= max_nesting ->
+         exists m', decode_tree (dec_scalar parse_float parse_time) print false env root J = Ok m' /\ equiv_root any_inner print env root m m').
+Proof.
+  intros fmt_float any_inner parse_float parse_time env Hflat Hnames Hfok Hfrt Htime Hinner.
+  exact (codec_full fmt_float any_inner (dec_scalar parse_float parse_time) env Hflat
+           (scalar_rt_own fmt_float parse_float parse_time Hfok Hfrt Htime) Hnames Hinner print print_nonempty false).
+Qed.
+Print Assumptions C01_full_statement.
+Theorem C01_encode_succeeds :
+  forall fmt_float any_inner parse_float parse_time env,
+    oneofs_flat env -> float_text_ok fmt_float -> float_roundtrip fmt_float parse_float ->
+    time_parse_extends parse_time ->
+    forall root m, rep_root any_inner env root m -> exists txt, encode fmt_float any_inner env root m = Ok txt.
+Proof.
+  intros fmt_float any_inner parse_float parse_time env Hflat Hfok Hfrt Htime.
+  exact (encode_total fmt_float any_inner (dec_scalar parse_float parse_time) env Hflat
+           (scalar_rt_own fmt_float parse_float parse_time Hfok Hfrt Htime)).
+Qed.
+Print Assumptions C01_encode_succeeds.
+
+(* The same statement over the DECODER FAMILY's tree decoder CodecDecTree.tr_decode (the function
+   that proofs/CodecDecTreeProofs.decode_bytes_tree shows the Go-tied token-level model
+   CodecDec.decode_bytes computes whenever the tokenizer reads the text as the tokens of J), with
+   that family's scalar layer CodecDecScalar.scalar_from_go.  Premises on the three library oracles
+   of that model: o_float inverts the float text on finite bit patterns, o_time extends the RFC 3339
+   fast path, o_decimal is the normalised text of lib/Decimal with exponent within +-1000.
+   equiv_root ... raw_dec: an Any payload is stored as the canonical re-print of its tokens.
+   The premise on J is the decoder's documented bound (10000 nested arrays/objects). *)
+Theorem C01_full_statement_dec :
+  forall fmt_float any_inner (orc : CodecDecScalar.oracles) env,
+    oneofs_flat env -> oneof_names_ok env -> env_items_ok env ->
+    float_text_ok fmt_float -> orc_float_ok fmt_float orc -> orc_time_ok orc -> orc_decimal_ok orc ->
+    inner_ok any_inner ->
+    forall root m, rep_root any_inner env root m ->
+      exists txt J, encode fmt_float any_inner env root m = Ok txt /\ strict_parse txt = Some J /\
+        (CodecDecTree.jdepth J <= CodecDec.max_scan_depth ->
+         exists m', CodecDecTree.tr_decode orc env (S (CodecDecTree.jsize J)) root J = Ok m' /\
+                    equiv_root any_inner raw_dec env root m m').
+Proof. exact codec_full_dec. Qed.
+Print Assumptions C01_full_statement_dec.
+Theorem C01_dec_premises_satisfiable :
+  float_text_ok inst_fmt /\ orc_float_ok inst_fmt inst_orc /\ orc_time_ok inst_orc /\ orc_decimal_ok inst_orc.
+Proof. exact orc_premises_satisfiable. Qed.
+Print Assumptions C01_dec_premises_satisfiable.
+(* the bridge itself: every successful run of this family's tree decoder, instantiated with the
+   decoder family's scalar layer, payload spelling and map check, is a run of tr_decode *)
+Theorem C01_decoder_models_agree :
+  forall (orc : CodecDecScalar.oracles) env, env_items_ok env ->
+    forall root J m', CodecDecTree.jdepth J <= CodecDec.max_scan_depth ->
+      decode_tree (dsc_dec orc) raw_dec true env root J = Ok m' ->
+      CodecDecTree.tr_decode orc env (S (CodecDecTree.jsize J)) root J = Ok m'.
+Proof. exact decode_tree_sim. Qed.
+Print Assumptions C01_decoder_models_agree.
+Theorem C01_env_items_decided : forall env, env_items_ok_b env = true -> env_items_ok env.
+Proof. exact env_items_ok_b_sound. Qed.
+Print Assumptions C01_env_items_decided.
 
 (* every scalar kind, every value of its documented domain: the printer's token is read back by
    the matching arm of scalarReflectFromGo to the same value (decimals: to the normalised text).
@@ -140,9 +209,9 @@ Definition rt_tree : jvalue := Eval vm_compute in
   match strict_parse rt_txt with Some j => j | None => JNull end.
 
 Example C01_roundtrip_example :
-  oneofs_flat rt_env /\ oneof_names_ok rt_env /\ rep_root rt_env [82] rt_msg /\
+  oneofs_flat rt_env /\ oneof_names_ok rt_env /\ rep_root rt_inner rt_env [82] rt_msg /\
   encode rt_fmt rt_inner rt_env [82] rt_msg = Ok rt_txt /\ strict_parse rt_txt = Some rt_tree /\
-  decode_tree rt_pf rt_pt rt_env [82] rt_tree = Ok rt_msg.
+  decode_tree (dec_scalar rt_pf rt_pt) print false rt_env [82] rt_tree = Ok rt_msg.
 Proof.
   split; [apply oneofs_flat_b_sound; vm_compute; reflexivity|].
   split; [apply oneof_names_ok_b_sound; vm_compute; reflexivity|].
@@ -157,7 +226,10 @@ Proof.
       * split; [constructor; cbn; lia|reflexivity].
       * split; [constructor; vm_compute; reflexivity|reflexivity].
       * split; [|reflexivity]. apply RV_oneof with (ps := [mkProp [97] [1] false true [2] (FScalar KBool);
-                                                          mkProp [98] [2] false true [1] (FScalar KInt32)]); [reflexivity|].
+                                                          mkProp [98] [2] false true [1] (FScalar KInt32)]); [reflexivity| |].
+        2:{ intros q1 q2 H1 H2 P1 P2. vm_compute in H1, H2.
+            destruct H1 as [<-|[<-|[]]]; destruct H2 as [<-|[<-|[]]]; try reflexivity;
+              exfalso; vm_compute in P1, P2; congruence. }
         constructor.
         -- apply props_ok_b_sound. vm_compute. reflexivity.
         -- intros l v Hl Hv. vm_compute in Hl. destruct Hl as [<-|[<-|[]]]; vm_compute in Hv; [injection Hv as <-|discriminate].
